@@ -429,7 +429,7 @@ def tlc_validate_sharded(chk, module, cfg, recs, name, shards=6, timeout=3000, e
     return bad
 
 
-def front_end_verdicts(chk, snippets, prelude, name, per=200, mod_dir="", timeout_ms=60000):
+def front_end_verdicts(chk, snippets, prelude, name, per=200, mod_dir="", timeout_ms=60000, extra_files=None, extra_lines=None):
     """Type-check many snippets (each one or more whole lines of top-level Capy) in batches and
     attribute every error diagnostic to the snippet whose lines contain its start.
     Returns a list of dicts {accepted, kinds, crash} per snippet (crash = the front end died on
@@ -448,7 +448,10 @@ def front_end_verdicts(chk, snippets, prelude, name, per=200, mod_dir="", timeou
                 where.append((len(lines) + 1, len(lines) + len(sl), i))
                 lines += sl
             lines.append("main :: () {}")
-            jobs.append({"id": "fe%d" % bi, "files": {"main.capy": "\n".join(lines) + "\n"},
+            files = {"main.capy": "\n".join(lines) + "\n"}
+            if extra_files:
+                files.update(extra_files)
+            jobs.append({"id": "fe%d" % bi, "files": files,
                          "stop_after": "infer", "timeout_ms": timeout_ms, "mod_dir": mod_dir})
             layouts.append(where)
         res = run_batch(jobs, chk.wd, "%s_fe%d" % (name, rnd))
@@ -470,6 +473,13 @@ def front_end_verdicts(chk, snippets, prelude, name, per=200, mod_dir="", timeou
                     line = int(d["header"].split(":")[0])
                 except ValueError:
                     stray.append(d["kind"])
+                    continue
+                if not d["file"].endswith("main.capy"):
+                    owner = (extra_lines or {}).get(os.path.basename(d["file"]), {}).get(line)
+                    if owner is None:
+                        stray.append("%s@%s:%d" % (d["kind"], os.path.basename(d["file"]), line))
+                    elif owner in per_snip:
+                        per_snip[owner].append(d["kind"])
                     continue
                 for lo, hi, i in where:
                     if lo <= line <= hi:
